@@ -43,6 +43,7 @@ func HarnessC17Response() {
 	vfsWriteFile("templates/calc.tw", c17Page)
 	vfsWriteFile("templates/layouts/lay.tw", "HEADMARK [@reserve(\"r\")] TAILMARK")
 	vfsWriteFile("templates/ins.tw", "@use(\"~lay\")@insert(\"r\", o.missing)")
+	vfsWriteFile("templates/about.tw", "about @component(\"err\")") // the error page is also used as a partial
 	vfsWriteFile("templates/lst.tw", "HEADMARK {{ [d, nope].join(\"/\") }} TAILMARK")
 	vfsWriteFile("templates/pct.tw", "HEADMARK {{ 7 % \"3\" }} TAILMARK") // the error message holds a '%' 
 	// the custom error page has a variable of its own; the failed page's data uses the same name with another type
